@@ -28,7 +28,8 @@ import (
 //   gen <idl> | <real> x<outfile> <fmt> <texteq> <twice> x<modeltext> <compile> x<compile error> <probe> x<name> x<desc> x<summary>
 //   genperr x<description> | <real>
 //
-// flags (after the common ones): -compile K  (compile/probe the cases with index < K; default 0)
+// Cases with index < K are compiled and probed: K = all systematic cases + 150 random ones in the quick
+// tier, every case in the thorough tier (`-tier`).
 
 type genCase struct {
 	idx      int
@@ -512,6 +513,10 @@ func runGen(e *env, compileN int) error {
 
 func init() {
 	commands["gen"] = func(e *env) error {
-		return runGen(e, e.compileN)
+		k := len(genSystematicCases()) + 150
+		if e.tier == "thorough" {
+			k = e.n
+		}
+		return runGen(e, k)
 	}
 }
